@@ -465,10 +465,42 @@ def run(ctx):
             elif t["k"] == "call" and (callee_of(t) or "").endswith("output::Output::print_decimal"):
                 out.append(("decimal", tr.expr(t["args"][1], 8)))
         return out
+    from .. import pipe as _pipe
+
+    def pipeline(vec):
+        """the output trap written as an iterator chain: (elements reaching the consumer per source item, take_while stops, consumer) or None"""
+        reg = kit.dominated_region(tr, tg[vec])
+        for b in sorted(reg):
+            t = tr.term(b)
+            if t["k"] != "call":
+                continue
+            st = _pipe.chain(prog, tr, t)
+            if st is None:
+                continue
+            sink_fn = prog.fns.get(st[-1][1])
+            if sink_fn is None or not any(c and c.endswith("output::Output::print") for bb, tt, c in sink_fn.calls()):
+                continue
+            r = _pipe.elements(prog, tr, st)
+            if r is not None:
+                return st, r
+        return None
+
+    def strip_casts(e):
+        while e[0] == "cast":
+            e = e[3]
+        return e
+
+    def is_mem_word(e):
+        return e[0] == "call" and str(e[1]).endswith("RunState::mem")
+
     def low_byte(e):
         return e[0] == "cast" and e[2] == "char" and e[3][0] == "cast" and e[3][2] == "u8"
     for vec, nm in ((0x21, "OUT"), (0x22, "PUTS")):
         ps = printed(vec)
+        if not ps and nm == "PUTS":
+            pl = pipeline(vec)
+            if pl is not None:
+                ps = list(pl[1][0])          # what reaches the printing consumer for one source item
         ctx.instance(1)
         ok = len(ps) == 1 and low_byte(ps[0])
         inner = ps[0][3][3] if ok else None
@@ -483,7 +515,13 @@ def run(ctx):
     arrs = [s for b in reg for s in tr.stmts(b) if s["k"] == "assign" and s["r"]["k"] == "agg" and s["r"].get("ak") == "array" and len(s["r"]["ops"]) == 2]
     ctx.instance(1)
     ok = len(arrs) == 1
-    if ok:
+    plp = pipeline(0x24) if not ok else None
+    if plp is not None and len(plp[1][0]) == 2:
+        e0, e1 = (strip_casts(x) for x in plp[1][0])
+        f0, f1 = bits.instr_field(e0, is_mem_word), bits.instr_field(e1, is_mem_word)
+        ok = f0 == (0, 8, False) and f1 == (8, 8, False)
+        desc = [expr_str(e0, 60), expr_str(e1, 60)]
+    elif ok:
         e0, e1 = (tr.expr(o, 8, stop={"named"}) for o in arrs[0]["r"]["ops"])
         f0 = bits.instr_field(e0, lambda e: e[0] == "local" and e[2] == "chr_raw")
         f1 = bits.instr_field(e1, lambda e: e[0] == "local" and e[2] == "chr_raw")
@@ -513,6 +551,45 @@ def run(ctx):
     for vec, nm in ((0x22, "PUTS"), (0x24, "PUTSP")):
         reg = kit.dominated_region(tr, tg[vec])
         prints = [b for b in sorted(reg) if tr.term(b)["k"] == "call" and (callee_of(tr.term(b)) or "").endswith("output::Output::print")]
+        if not prints:
+            pl = pipeline(vec)
+            if pl is not None:
+                # iterator-chain form: the chain ends `.take_while(|c| c != 0).for_each(print)`: the stop test is the last stage before the
+                # consumer, it tests the very elements that are printed against zero, nothing filters in between, and the consumer prints
+                # its item
+                stages, (elems, stops, sink) = pl
+                ctx.instance(1)
+                badp = []
+                kinds = [st_[0] for st_ in stages]
+                if [k_ for k_ in kinds if k_ in ("filter",)]:
+                    badp.append("a filter stage drops characters")
+                if len(stops) != 1 or kinds[-2:-1] != ["take_while"]:
+                    badp.append("the chain does not end in exactly one take_while before the printing consumer")
+                else:
+                    pos_, kind_, preds = stops[0]
+                    for el, pr_ in zip(elems, preds):
+                        pr_ = strip_casts(pr_)
+                        okp = pr_[0] == "bin" and pr_[1] == "Ne" and ("const", 0) in (pr_[2], pr_[3]) and \
+                            strip_casts(pr_[3] if pr_[2] == ("const", 0) else pr_[2]) == strip_casts(el)
+                        if not okp:
+                            badp.append("the stop test `%s` is not `printed character != 0`" % expr_str(pr_, 80))
+                    if len(preds) != len(elems):
+                        badp.append("the stop test does not see every printed character")
+                if sink is not None:
+                    sf_ = sink[0]
+                    pa = [sf_.expr(tt["args"][1], 8) for bb, tt, c_ in sf_.calls() if c_ and c_.endswith("output::Output::print")]
+                    def is_param(x):
+                        while x[0] in ("ref", "deref", "cast"):
+                            x = x[3] if x[0] == "cast" else x[1]
+                        return x[0] == "arg" and x[1] == 2
+                    if len(pa) != 1 or not is_param(pa[0]):
+                        badp.append("the consumer does not print exactly its item")
+                else:
+                    badp.append("no printing consumer")
+                ctx.oblig(not badp, {nm: "iterator chain %s" % " -> ".join(kinds)}, "take_while(!= 0) directly before the printing for_each")
+                if badp:
+                    ctx.violation("string-termination|%s" % nm, sp_file_line(tr.term(tg[vec]).get("sp")), "%s: %s" % (nm, "; ".join(sorted(set(badp)))))
+                continue
         ctx.need(prints, "print call in the %s arm" % nm)
         can = set()
         for pb in prints:
